@@ -3,9 +3,11 @@ package main
 import (
 	"fmt"
 	"sort"
+	"time"
 
 	"verif/mc"
 	"verif/vrt"
+	"verif/vrt/vtime"
 )
 
 // C19 — pools: never more than the limit held, every queued caller eventually served. Mode T,
@@ -18,15 +20,17 @@ type c19Case struct {
 	kind    string
 	limit   int
 	callers int
+	hold    time.Duration // how long each holder keeps its token (0 = a schedule point only)
+	backlog int           // maximum backlog (0 = 10)
 }
 
 func c19Scenario(cs c19Case) *mc.Scenario {
 	return &mc.Scenario{
 		Name:   "C19/" + cs.kind,
-		Params: fmt.Sprintf("limit=%d callers=%d backlog=10 timeout=1s", cs.limit, cs.callers),
+		Params: fmt.Sprintf("limit=%d callers=%d backlog=%d timeout=1s hold=%v", cs.limit, cs.callers, cs.bl(), cs.hold),
 		Cfg:    vrt.Config{Events: true, MaxSteps: 6000},
 		Body: func(x *mc.Exec) {
-			st := buildStack(cs.kind, cs.limit, stackOpts{maxBacklog: 10})
+			st := buildStack(cs.kind, cs.limit, stackOpts{maxBacklog: cs.bl()})
 			ws := &waitState{st: st, inAcq: make([]bool, cs.callers), granted: make([]bool, cs.callers), returned: make([]bool, cs.callers),
 				tid: make([]int, cs.callers), retClock: make([]int64, cs.callers)}
 			x.Aux = ws
@@ -56,7 +60,11 @@ func c19Scenario(cs c19Case) *mc.Scenario {
 					if holders > cs.limit {
 						x.Fail("over-limit", "%d tokens are held at once, the pool's limit is %d", holders, cs.limit)
 					}
-					vrt.Yield() // hold
+					if cs.hold > 0 {
+						vtime.Sleep(cs.hold)
+					} else {
+						vrt.Yield() // hold
+					}
 					holders--
 					complete(l, i%3)
 				}))
@@ -103,13 +111,32 @@ func c19Scenario(cs c19Case) *mc.Scenario {
 				for i, g := range ws.granted {
 					if !g {
 						x.Fail("not-granted", "caller %d was refused although callers <= limit + backlog and every holder releases", i)
-					} else if ws.retClock[i] != 0 {
+					} else if cs.hold == 0 && ws.retClock[i] != 0 {
 						x.Fail("needed-time", "caller %d was granted only at virtual time %d (needed a timeout)", i, ws.retClock[i])
+					}
+				}
+				if cs.hold > 0 && !x.Failed() {
+					// every holder keeps its token for the same time: the k-th grant happens when the
+					// (k-limit)-th holder releases, i.e. at floor(k/limit) hold times
+					cl := append([]int64{}, ws.retClock...)
+					sort.Slice(cl, func(a, b int) bool { return cl[a] < cl[b] })
+					for k, at := range cl {
+						if want := int64(k/cs.limit) * int64(cs.hold); at != want {
+							x.Fail("grant-late", "the %d-th grant happened at virtual time %d, capacity was released for it at %d (grant instants %v)", k+1, at, want, cl)
+							break
+						}
 					}
 				}
 			}
 		},
 	}
+}
+
+func (cs c19Case) bl() int {
+	if cs.backlog == 0 {
+		return 10
+	}
+	return cs.backlog
 }
 
 func runC19(c *Ctx) {
@@ -118,8 +145,13 @@ func runC19(c *Ctx) {
 		c.Explore(c19Scenario(c19Case{kind: kind, limit: 1, callers: 2}), mc.Options{PreemptBound: pb})
 		c.Explore(c19Scenario(c19Case{kind: kind, limit: 1, callers: 3}), mc.Options{PreemptBound: c.Pick(2, 3)})
 		c.Explore(c19Scenario(c19Case{kind: kind, limit: 2, callers: 3}), mc.Options{PreemptBound: c.Pick(2, 3)})
+		// holders keep their tokens for 300 ms of virtual time (three generations fit into the 1 s timeout)
+		c.Explore(c19Scenario(c19Case{kind: kind, limit: 1, callers: 3, hold: 300 * time.Millisecond}), mc.Options{PreemptBound: c.Pick(2, 3)})
+		// exactly as many callers as limit + backlog: nobody may be turned away
+		c.Explore(c19Scenario(c19Case{kind: kind, limit: 1, callers: 3, backlog: 2}), mc.Options{PreemptBound: c.Pick(2, 3)})
 		if c.Thorough() {
 			c.ExploreBig(c19Scenario(c19Case{kind: kind, limit: 2, callers: 4}), mc.Options{PreemptBound: 2})
+			c.Explore(c19Scenario(c19Case{kind: kind, limit: 2, callers: 4, backlog: 2, hold: 300 * time.Millisecond}), mc.Options{PreemptBound: 2})
 		}
 	}
 }
